@@ -1037,6 +1037,54 @@ func main() {
 			encWrites = append(encWrites, nonLocalWrites(fd)...)
 		}
 	}
+	// C16, decode side: the decoder never stores into its input `b` (nor copies / appends into it)
+	var inWrites []string
+	for name, f := range rf {
+		if name != "decoder.go" && name != "unknownfields.go" {
+			continue
+		}
+		for _, d := range f.Decls {
+			fd, ok := d.(*ast.FuncDecl)
+			if !ok || fd.Body == nil {
+				continue
+			}
+			rooted := func(e ast.Expr) bool {
+				for {
+					switch x := e.(type) {
+					case *ast.IndexExpr:
+						e = x.X
+						continue
+					case *ast.SliceExpr:
+						e = x.X
+						continue
+					case *ast.ParenExpr:
+						e = x.X
+						continue
+					case *ast.Ident:
+						return x.Name == "b" || x.Name == "buf"
+					}
+					return false
+				}
+			}
+			ast.Inspect(fd.Body, func(n ast.Node) bool {
+				switch x := n.(type) {
+				case *ast.AssignStmt:
+					for _, l := range x.Lhs {
+						if _, isId := l.(*ast.Ident); !isId && rooted(l) {
+							inWrites = append(inWrites, fmt.Sprintf("\"%s:assign %s\"", fd.Name.Name, strings.Join(strings.Fields(src(l)), " ")))
+						}
+					}
+				case *ast.CallExpr:
+					if id, ok := x.Fun.(*ast.Ident); ok && (id.Name == "append" || id.Name == "copy") && len(x.Args) > 0 && rooted(x.Args[0]) {
+						inWrites = append(inWrites, fmt.Sprintf("\"%s:%s %s\"", fd.Name.Name, id.Name, strings.Join(strings.Fields(src(x)), " ")))
+					}
+				}
+				return true
+			})
+		}
+	}
+	sort.Strings(inWrites)
+	w("  decodeInputWriteSites := %d\n  decodeInputWriteSiteList := [%s]\n", len(inWrites), strings.Join(inWrites, ", "))
 	sort.Strings(encWrites)
 	w("  encodeForeignWriteSites := %d\n  encodeForeignWriteSiteList := [%s]\n", len(encWrites), strings.Join(encWrites, ", "))
 	sort.Strings(descWrites)
